@@ -461,7 +461,7 @@ def check(pid, tier):
             for extra in (seed + 1, seed + 2):
                 for suite in cfg["suites"]:
                     for tag, b in bins[:2]:
-                        r = run_suite(os.path.join(rundir, "harness-" + tag), mydrv, suite, "thorough", extra, rundir, tag + "-s", 0, timeout=600)
+                        r = run_suite(os.path.join(rundir, "harness-" + tag), mydrv, suite, "thorough", extra, rundir, tag + "-s", 0, timeout=90)
                         for c in r["cases"]:
                             if c.get("verdict_impl") == "false" and c.get("known") == "0":
                                 c["suite"], c["build"] = suite, tag
